@@ -29,14 +29,26 @@ def percent_decode_bytes(raw):
     return bytes(out)
 
 
+class TransientInputError(OSError):
+    """Injected: the server's read failed (timed out) without consuming any byte."""
+
+
 class Input(object):
     """wsgi.input over a byte string; records the sizes requested and the cursor."""
 
-    def __init__(self, data, short=None):
+    def __init__(self, data, short=None, fail_at=None):
         self.data = data
         self.pos = 0
         self.calls = []
         self.short = short  # optional list of max sizes per read (short reads)
+        # indexes of calls that fail with a transient error (a socket timeout) WITHOUT consuming anything
+        self.fail_at = frozenset(fail_at or ())
+        self.failed = 0
+
+    def _maybe_fail(self):
+        if (len(self.calls) - 1) in self.fail_at:
+            self.failed += 1
+            raise TransientInputError('injected: wsgi.input call %d timed out' % (len(self.calls) - 1))
 
     def _take(self, n):
         if self.short:
@@ -49,12 +61,14 @@ class Input(object):
 
     def read(self, size=-1):
         self.calls.append(('read', size))
+        self._maybe_fail()
         if size is None or size < 0:
             size = len(self.data) - self.pos
         return self._take(size)
 
     def readline(self, size=-1):
         self.calls.append(('readline', size))
+        self._maybe_fail()
         end = self.data.find(b'\n', self.pos)
         end = len(self.data) if end < 0 else end + 1
         n = end - self.pos
